@@ -153,6 +153,7 @@ def run_molecule(text, sched_kwargs, props=("C04", "C05", "C06", "C07", "C08"), 
             world.hooks.append(audit)
             rng = SimRng(sched)
             out.phase = "generate"
+            gen_start = len(world.log)  # (a generation that preceded the audited one, e.g. before a mirror was taken, is not judged)
             try:
                 import contextlib
                 import io
@@ -178,7 +179,7 @@ def run_molecule(text, sched_kwargs, props=("C04", "C05", "C06", "C07", "C08"), 
             except BaseException as exc:
                 out.exc = exc
                 out.exc_tb = traceback.format_exc()
-            out.draw_failed = any(e["k"] == "draw_fail" for e in world.log) or isinstance(out.exc, DrawDiverges)
+            out.draw_failed = any(e["k"] == "draw_fail" for e in world.log[gen_start:]) or isinstance(out.exc, DrawDiverges)
             out.phase = "audit"
             audit.finish(out.result, out.exc)
             if out.result is not None:
